@@ -21,15 +21,16 @@ DIR=$(python3 -c "import json;print(json.load(open('$SRC/meta.json')).get('demo_
 [ -d "$DIR" ] || DIR=$(head -3 "$DEMO" | grep -o 'place in: *[^ ]*' | sed 's/place in: *//')
 [ -d "$DIR" ] || fail "demo dir unknown"
 cp "$DEMO" "$DIR/zz_seed_demo_test.go"
+RACE=""; grep -q -- "-race" "$SRC/meta.json" && RACE="-race"
 TESTS=$(grep -o '^func Test[A-Za-z0-9_]*' "$DEMO" | sed 's/func //' | paste -sd'|')
-go test -vet=off -count=1 -run "^($TESTS)\$" "./$DIR/" >/tmp/confirm.$ID.$N.with 2>&1; RC_WITH=$?
+go test $RACE -vet=off -count=1 -run "^($TESTS)\$" "./$DIR/" >/tmp/confirm.$ID.$N.with 2>&1; RC_WITH=$?
 rm "$DIR/zz_seed_demo_test.go"
 [ $RC_WITH -ne 0 ] || fail "demo passes WITH the change"
 grep -q "^--- FAIL\|^panic\|FAIL" /tmp/confirm.$ID.$N.with || fail "demo did not run"
 /verif/tools/baseline.sh "$WT" > /tmp/confirm.$ID.$N.base 2>&1 || { /verif/tools/baseline.sh "$WT" > /tmp/confirm.$ID.$N.base 2>&1 || fail "baseline fails with the change: $(grep MISSING /tmp/confirm.$ID.$N.base | head -3 | tr '\n' ' ')"; }
 git checkout -q -- . 
 cp "$DEMO" "$DIR/zz_seed_demo_test.go"
-go test -vet=off -count=1 -run "^($TESTS)\$" "./$DIR/" >/tmp/confirm.$ID.$N.without 2>&1; RC_WO=$?
+go test $RACE -vet=off -count=1 -run "^($TESTS)\$" "./$DIR/" >/tmp/confirm.$ID.$N.without 2>&1; RC_WO=$?
 rm "$DIR/zz_seed_demo_test.go"
 [ $RC_WO -eq 0 ] || fail "demo fails WITHOUT the change"
 OUT=/verif/seeded/$ID-$ON
